@@ -113,6 +113,17 @@ Theorem C15_recorded_collateral_claimable_after_any_history :
 Proof. exact claimable_after_any_history. Qed.
 Print Assumptions C15_recorded_collateral_claimable_after_any_history.
 
+(* the reward block's strike against a prover that missed its window (keeper.burnContract, run from BeginBlock)
+   is part of every history above ([OBurn]); by itself it keeps the provider record, every collateral record and
+   every balance: a struck provider can still shut down and is still owed exactly what it locked *)
+Theorem C15_reward_block_strike_keeps_record_and_collateral :
+  forall s c, addr_ok s ->
+  st_coll (burn s c) = st_coll s /\ st_bank (burn s c) = st_bank s /\ st_price (burn s c) = st_price s /\
+  (forall d, get_prov (burn s c) d = None <-> get_prov s d = None) /\
+  (forall d, d <> c -> get_prov (burn s c) d = get_prov s d).
+Proof. exact burn_keeps_record_and_money. Qed.
+Print Assumptions C15_reward_block_strike_keeps_record_and_collateral.
+
 (* ---- neither twice nor by anyone else ---- *)
 Theorem C15_no_second_or_foreign_claim :
   (* a spelling that owns no provider record gets nothing, whatever state *)
